@@ -68,7 +68,8 @@ long lib_write(int fd, void *p, unsigned long n)
   if (r != (long)n) g_lost = 1;
   return r;
 }
-int lib_close(int fd) { return 0; }
+unsigned long g_closes; int g_closed_fd;
+int lib_close(int fd) { if (g_exc) return 0; if (g_closes < 1000) g_closes++; g_closed_fd = fd; return 0; }
 struct stat_s { int x; };
 int lib_fstat(int fd, struct stat_s *b) { return nondet_bool() ? -1 : 0; }
 struct ofstream { _Bool open_, failed; };
